@@ -191,15 +191,20 @@ func c14StreamTraces(c *Ctx) {
 		if i%5 == 2 {
 			// the library uses the same package for its own checks, also failing
 			// ones: a hash obtained afterwards still starts from zero
-			bad := fit.NewHeader(fit.V20, true)
-			bad.CRC = uint16(1 + rng.Intn(65535))
-			bad.DataSize = uint32(rng.Intn(100000))
-			bad.CheckIntegrity()
 			junk := make([]byte, 40)
 			rng.Read(junk)
 			copy(junk, []byte{14, 0x10, 0x43, 0x08, 20, 0, 0, 0, '.', 'F', 'I', 'T'})
-			fit.CheckIntegrity(bytes.NewReader(junk), false)
-			fit.DecodeHeader(bytes.NewReader(junk))
+			if i%2 == 0 {
+				fit.CheckIntegrity(bytes.NewReader(junk), false)
+				fit.DecodeHeader(bytes.NewReader(junk))
+			}
+			bad := fit.NewHeader(fit.V20, true)
+			bad.CRC = uint16(1 + rng.Intn(65535))
+			bad.DataSize = uint32(rng.Intn(100000))
+			bad.CheckIntegrity() // the last use before the hash below is obtained
+			if i%4 == 1 {
+				fit.CheckIntegrity(bytes.NewReader(junk), true)
+			}
 		}
 		h := dyncrc16.New()
 		if i%5 == 2 {
